@@ -120,7 +120,13 @@ Definition ref_diff (l : list val) : list val :=
   match l with [] => [] | x :: r => ref_diff_from x r end.
 
 (** PAbs on integer / rest streams *)
-Definition abs1 (v : val) : val := match v with VInt z => VInt (Z.abs z) | _ => VNone end.
+Definition abs1 (v : val) : val :=
+  match v with
+  | VInt z => VInt (Z.abs z)
+  | VBool b => VInt (if b then 1 else 0)
+  | VFlt q => VFlt (Qabs.Qabs q)
+  | _ => VNone
+  end.
 Definition ref_abs (l : list val) : list val := map abs1 l.
 
 (** PCounter: number of rising zero-crossings so far *)
@@ -138,6 +144,50 @@ Definition ref_wrap1 (mn mx v : Z) : Z := mn + (v - mn) mod (mx - mn).
 
 (** PSkipIf, pointwise *)
 Definition skip1 (v s : val) : val := if truthy s then VNone else v.
+
+(** ** the same definitions on denotations (finite or endless) *)
+
+Fixpoint zipw {A B C} (f : A -> B -> C) (l1 : list A) (l2 : list B) : list C :=
+  match l1, l2 with
+  | a :: r1, b :: r2 => f a b :: zipw f r1 r2
+  | _, _ => []
+  end.
+Definition gprefix (g : nat -> val) (n : nat) : list val := map g (seq 0 n).
+
+Definition sem_map (f : val -> val) (s : sem) : sem :=
+  match s with Fin l => Fin (map f l) | Inf g => Inf (fun i => f (g i)) end.
+
+(* element-wise combination: ends with the shorter operand *)
+Definition sem_zip (f : val -> val -> val) (s1 s2 : sem) : sem :=
+  match s1, s2 with
+  | Fin l1, Fin l2 => Fin (zipw f l1 l2)
+  | Fin l1, Inf g2 => Fin (zipw f l1 (gprefix g2 (List.length l1)))
+  | Inf g1, Fin l2 => Fin (zipw f (gprefix g1 (List.length l2)) l2)
+  | Inf g1, Inf g2 => Inf (fun i => f (g1 i) (g2 i))
+  end.
+
+(* a function of neighbouring values (PChanged, PDiff): output i is h s_i s_(i+1) *)
+Fixpoint adj_from (h : val -> val -> val) (prev : val) (l : list val) : list val :=
+  match l with [] => [] | v :: r => h prev v :: adj_from h v r end.
+Definition sem_adj (h : val -> val -> val) (s : sem) : sem :=
+  match s with
+  | Fin [] => Fin []
+  | Fin (x :: r) => Fin (adj_from h x r)
+  | Inf g => Inf (fun i => h (g i) (g (S i)))
+  end.
+Definition changed1 (prev v : val) : val := zi (if py_eq v prev then 0 else 1).
+
+Definition sem_stutter (k : nat) (s : sem) : sem :=
+  match s with Fin l => Fin (ref_stutter k l) | Inf g => Inf (fun i => g (i / k)%nat) end.
+(* an endless input is never padded, looped or reversed: it is what it is *)
+Definition sem_pad (n : nat) (s : sem) : sem :=
+  match s with Fin l => Fin (ref_pad n l) | Inf g => Inf g end.
+Definition sem_pad_to_multiple (m mp : nat) (s : sem) : sem :=
+  match s with Fin l => Fin (ref_pad_to_multiple m mp l) | Inf g => Inf g end.
+Definition sem_loop (c : nat) (s : sem) : sem :=
+  match s with Fin l => Fin (ref_loop c l) | Inf g => Inf g end.
+Definition sem_subsequence (off n : nat) (s : sem) : sem :=
+  match s with Fin l => Fin (ref_subsequence off n l) | Inf g => Fin (map (fun i => g (off + i)%nat) (seq 0 n)) end.
 
 (* ================================================================================================ *)
 (** * Part 3: Euclidean rhythms and arpeggiator orders *)
